@@ -14,6 +14,13 @@
 //!    arrives and an `OutboundTooLarge` report reaches `on_error`; a client request / notify fails
 //!    locally with `RepeError::MessageTooLarge` and nothing reaches the wire;
 //!  * after every case a small follow-up call on the same connection succeeds.
+//!
+//! Long-query sweep (limits 1 KiB, 4 KiB, 64 KiB × inline / off-reader / proxy-forwarded response):
+//! the QUERY length is swept close to the limit (limit − 250 .. limit − 40 in fixed steps around the
+//! size of a bare error reply, plus seeded ones) on registered long routes whose response is solved to
+//! be at the limit, one byte over, or far over, and on UNKNOWN long routes whose MethodNotFound
+//! reply is itself oversized. Same oracle; in particular the ec 9 replacement must itself fit the
+//! limit (a reply that echoes nothing is ~180 bytes, and every limit used is ≥ 1 KiB).
 
 use crate::common::*;
 use crate::oracle::{self, SpecHeader};
@@ -80,6 +87,10 @@ struct CaseSpec {
     size: usize,
     variant: u32,
     boundary: bool,
+    /// 0: the path's usual short route; otherwise the request goes to a route of exactly this many bytes
+    q: usize,
+    /// the long route is not registered (the reply is the router's MethodNotFound, `size` = 48 + q is a lower bound)
+    unknown: bool,
 }
 
 #[derive(Clone, Debug)]
@@ -182,7 +193,7 @@ fn plan(args: &Args) -> Vec<Group> {
                     let mut vs: Vec<u32> = (0..nv).collect();
                     rng.shuffle(&mut vs);
                     for v in vs.into_iter().take(per_boundary.max(1)) {
-                        cases.push(CaseSpec { size: s, variant: v, boundary: true });
+                        cases.push(CaseSpec { size: s, variant: v, boundary: true, q: 0, unknown: false });
                     }
                 }
                 for _ in 0..randoms {
@@ -192,7 +203,7 @@ fn plan(args: &Args) -> Vec<Group> {
                         3 => rng.range(l as u64 + 1, (2 * l as u64).min(l as u64 + (256 << 10))) as usize,
                         _ => rng.range(160, 700) as usize,
                     };
-                    cases.push(CaseSpec { size: size.max(160), variant: rng.below(nv as u64) as u32, boundary: false });
+                    cases.push(CaseSpec { size: size.max(160), variant: rng.below(nv as u64) as u32, boundary: false, q: 0, unknown: false });
                 }
             } else {
                 for i in 0..(randoms * 2) {
@@ -202,19 +213,66 @@ fn plan(args: &Args) -> Vec<Group> {
                         2 => rng.range(128 << 10, 2 << 20),
                         _ => 1 << rng.range(8, 21),
                     } as usize;
-                    cases.push(CaseSpec { size, variant: rng.below(nv as u64) as u32, boundary: false });
+                    cases.push(CaseSpec { size, variant: rng.below(nv as u64) as u32, boundary: false, q: 0, unknown: false });
                 }
                 if args.thorough() {
                     // larger than the library's own 16 MiB default: only an unguarded endpoint may send it
-                    cases.push(CaseSpec { size: MIB16 + 4097, variant: 0, boundary: false });
+                    cases.push(CaseSpec { size: MIB16 + 4097, variant: 0, boundary: false, q: 0, unknown: false });
                 }
             }
             rng.shuffle(&mut cases);
             groups.push(Group { path, limit, defaults, cases, seed: rng.next_u64() });
         }
     }
+    // long-query sweep on the three response paths
+    let mut rng = Rng::new(args.seed ^ 0xC17_10_96);
+    for l in [1usize << 10, 4 << 10, 64 << 10] {
+        for path in [Path::Inline, Path::OffReader, Path::Proxy] {
+            if let Some(o) = &only {
+                if !o.contains(&path) {
+                    continue;
+                }
+            }
+            // d = limit − query length: dense around 48 + (length of a bare error reply's text) and around 48
+            let mut ds: Vec<usize> = vec![250, 220, 200, 190, 186, 184, 183, 182, 181, 180, 179, 178, 177, 176, 174, 170, 160, 140, 120, 100, 80, 60, 50, 49, 48, 47, 44, 40];
+            for _ in 0..args.budget(6, 60) {
+                ds.push(rng.range(40, 251) as usize);
+            }
+            let mut cases = vec![];
+            for d in ds {
+                let q = l - d;
+                for variant in 0..2u32 {
+                    // variant 0: JSON string body (at least the two quotes), variant 1: raw bytes (may be empty)
+                    let min_size = 48 + q + if variant == 0 { 2 } else { 0 };
+                    // one byte over the limit (or the smallest response there is), and far over it
+                    cases.push(CaseSpec { size: (l + 1).max(min_size), variant, boundary: true, q, unknown: false });
+                    cases.push(CaseSpec { size: l + rng.range(2, l as u64) as usize, variant, boundary: false, q, unknown: false });
+                    // within the limit when the query leaves room for a body: exactly at the limit and a random one below
+                    if min_size <= l {
+                        cases.push(CaseSpec { size: l, variant, boundary: true, q, unknown: false });
+                        cases.push(CaseSpec { size: rng.range(min_size as u64, l as u64 + 1) as usize, variant, boundary: false, q, unknown: false });
+                    }
+                }
+                cases.push(CaseSpec { size: 48 + q, variant: 0, boundary: false, q, unknown: true });
+            }
+            rng.shuffle(&mut cases);
+            groups.push(Group { path, limit: Some(l), defaults: false, cases, seed: rng.next_u64() });
+        }
+    }
     groups
 }
+
+/// A route of exactly `q` bytes: `prefix` + padding.
+fn long_route(prefix: &str, q: usize) -> String {
+    let mut r = String::with_capacity(q);
+    r.push_str(prefix);
+    while r.len() < q {
+        r.push((b'a' + (r.len() % 26) as u8) as char);
+    }
+    r
+}
+const LONG_KINDS: [&str; 4] = ["/lblob/", "/lraw/", "/lbblob/", "/lbraw/"];
+const LONG_UNKNOWN: &str = "/lnone/";
 
 // ------------------------------------------------------------------ workload handlers
 
@@ -280,9 +338,20 @@ fn push(ctx: &CallContext, v: Value) -> Result<Value, (repe::ErrorCode, String)>
     Ok(json!({ "sent": sent, "tok": tok }))
 }
 
-fn router() -> Router {
-    Router::new()
-        .with_json("/ping", |v| Ok(json!({ "pong": v["tok"].clone() })))
+fn router(g: &Group) -> Router {
+    // long routes of every query length the group's cases use (long-query sweep)
+    let mut qs: Vec<usize> = g.cases.iter().filter(|c| c.q > 0 && !c.unknown).map(|c| c.q).collect();
+    qs.sort();
+    qs.dedup();
+    let mut r = Router::new();
+    for q in qs {
+        r = r
+            .with_json(&long_route(LONG_KINDS[0], q), blob)
+            .with_erased_handler(&long_route(LONG_KINDS[1], q), Arc::new(RawBlob { off_reader: false }))
+            .with_json_blocking(&long_route(LONG_KINDS[2], q), blob)
+            .with_erased_handler(&long_route(LONG_KINDS[3], q), Arc::new(RawBlob { off_reader: true }));
+    }
+    r.with_json("/ping", |v| Ok(json!({ "pong": v["tok"].clone() })))
         .with_json("/blob", blob)
         .with_json(LONG_ROUTE, blob)
         .with_json_blocking("/bblob", blob)
@@ -309,7 +378,7 @@ struct Acc {
     inconcl: Vec<String>,
     counts: BTreeMap<String, u64>,
     max_seen: usize,
-    distinct: Vec<(Path, Option<usize>, usize, u32)>,
+    distinct: Vec<(Path, Option<usize>, usize, u32, usize, bool)>,
     evals: u64,
     samples: Vec<Value>,
 }
@@ -326,10 +395,11 @@ struct Ctx<'a> {
 }
 impl Ctx<'_> {
     fn replay(&self, c: &CaseSpec) -> Value {
-        json!({"path": self.g.path.name(), "limit": self.g.limit, "library_defaults": self.g.defaults, "size": c.size, "variant": c.variant, "group_seed": self.g.seed.to_string()})
+        json!({"path": self.g.path.name(), "limit": self.g.limit, "library_defaults": self.g.defaults, "size": c.size, "variant": c.variant, "query_len": c.q, "unknown_route": c.unknown, "group_seed": self.g.seed.to_string()})
     }
     fn viol(&mut self, c: &CaseSpec, sig: String, detail: String) {
-        let d = format!("{detail} [path {} limit {} wire size {} ({:+} vs limit) variant {}]", self.g.path.name(), limit_name(self.g.limit), c.size, self.g.limit.map(|l| c.size as i64 - l as i64).unwrap_or(0), c.variant);
+        let lq = if c.q > 0 { format!(" query {} bytes ({:+} vs limit){}", c.q, self.g.limit.map(|l| c.q as i64 - l as i64).unwrap_or(0), if c.unknown { ", unknown route" } else { "" }) } else { String::new() };
+        let d = format!("{detail} [path {} limit {} wire size {} ({:+} vs limit) variant {}{lq}]", self.g.path.name(), limit_name(self.g.limit), c.size, self.g.limit.map(|l| c.size as i64 - l as i64).unwrap_or(0), c.variant);
         let r = self.replay(c);
         self.acc.viols.push((sig, d, r));
     }
@@ -511,7 +581,7 @@ async fn start_ws_server(g: &Group) -> Result<Srv, String> {
     let peers = PeerRegistry::new();
     let reports: Reports = Arc::new(Mutex::new(vec![]));
     let r2 = reports.clone();
-    let mut server = WebSocketServer::new(router()).with_peer_registry(peers.clone()).on_error(move |e| {
+    let mut server = WebSocketServer::new(router(g)).with_peer_registry(peers.clone()).on_error(move |e| {
         if let ConnectionError::OutboundTooLarge { method, size, limit } = e {
             r2.lock().unwrap().push((method.clone(), *size, *limit));
         }
@@ -529,8 +599,9 @@ async fn start_ws_server(g: &Group) -> Result<Srv, String> {
 async fn start_proxy(g: &Group) -> Result<Srv, String> {
     let backend = AsyncServer::listen("127.0.0.1:0").await.map_err(|e| e.to_string())?;
     let baddr = backend.local_addr().map_err(|e| e.to_string())?;
+    let backend_router = router(g);
     let t1 = tokio::spawn(async move {
-        let _ = AsyncServer::new(router()).serve(backend).await;
+        let _ = AsyncServer::new(backend_router).serve(backend).await;
     });
     let listener = tokio::net::TcpListener::bind("127.0.0.1:0").await.map_err(|e| e.to_string())?;
     let addr = listener.local_addr().map_err(|e| e.to_string())?;
@@ -592,7 +663,24 @@ async fn server_case(rc: &mut Rc, srv: &Srv, cx: &mut Ctx<'_>, c: &CaseSpec, tok
                 (_, 0) => ("/blob", 1),
                 (_, _) => ("/raw", 0),
             };
-            let b = c.size - 48 - route.len();
+            // long-query sweep: the same four handlers registered under a route of exactly c.q bytes
+            let long;
+            let (route, fmt): (&str, u32) = if c.q > 0 {
+                let kind = match (path, c.variant & 1) {
+                    (Path::OffReader, 0) => 2,
+                    (Path::OffReader, _) => 3,
+                    (_, v) => v as usize,
+                };
+                long = long_route(if c.unknown { LONG_UNKNOWN } else { LONG_KINDS[kind] }, c.q);
+                (long.as_str(), if c.variant & 1 == 0 { 1 } else { 0 })
+            } else {
+                (route, fmt)
+            };
+            if c.unknown {
+                return unknown_route_case(rc, srv, cx, c, tok, route).await;
+            }
+            cx.acc.count(if c.q > 0 { "long_query_cases_registered_route" } else { "short_query_response_cases" }, 1);
+            let Some(b) = c.size.checked_sub(48 + route.len()) else { return true };
             let Some((k, body)) = sized_body(tok, fmt, b) else { return true };
             let id = rc.id();
             let req = oracle::frame(hdr(id, false, 2, 0), route.as_bytes(), serde_json::to_vec(&json!({ "n": k, "tok": tok })).unwrap().as_slice());
@@ -622,6 +710,22 @@ async fn server_case(rc: &mut Rc, srv: &Srv, cx: &mut Ctx<'_>, c: &CaseSpec, tok
             if over {
                 if h.ec == 9 && h.id == id && cx.g.limit.map(|l| reply.len() <= l).unwrap_or(true) {
                     cx.acc.count("oversized_responses_replaced_by_ec9_same_id", 1);
+                    if c.q > 0 {
+                        cx.acc.count("long_query_oversized_responses_replaced_by_fitting_ec9", 1);
+                    }
+                } else if h.ec == 9 && h.id == id {
+                    cx.viol(
+                        c,
+                        format!("C17:replacement-error-over-limit:{p}"),
+                        format!(
+                            "the oversized response was replaced by an ec 9 reply with the right id, but the replacement is itself {} bytes ({} over the limit): 48 header + {} query + {} body; body: {}",
+                            reply.len(),
+                            reply.len() - cx.g.limit.unwrap_or(0),
+                            h.query_length,
+                            h.body_length,
+                            trunc(&String::from_utf8_lossy(&reply[(48 + h.query_length as usize).min(reply.len())..]), 140)
+                        ),
+                    );
                 } else if reply.len() == c.size {
                     cx.viol(c, format!("C17:oversized-response-not-replaced:{p}:sent-as-is"), format!("the {}-byte response was sent unchanged (ec {})", reply.len(), h.ec));
                 } else {
@@ -753,6 +857,64 @@ async fn server_case(rc: &mut Rc, srv: &Srv, cx: &mut Ctx<'_>, c: &CaseSpec, tok
     }
 }
 
+/// Long-query sweep, UNKNOWN route of c.q bytes: the router's MethodNotFound reply echoes the query (and
+/// names the path), so close to the limit it is itself oversized and must be replaced by a fitting ec 9
+/// reply with the same id; when it fits it may arrive as it is (ec 6). Returns false when the
+/// connection must be replaced.
+async fn unknown_route_case(rc: &mut Rc, srv: &Srv, cx: &mut Ctx<'_>, c: &CaseSpec, tok: u64, route: &str) -> bool {
+    let p = cx.g.path.name();
+    let limit = cx.g.limit.unwrap_or(usize::MAX);
+    cx.acc.count("long_query_cases_unknown_route", 1);
+    let id = rc.id();
+    let req = oracle::frame(hdr(id, false, 2, 0), route.as_bytes(), serde_json::to_vec(&json!({ "n": 0, "tok": tok })).unwrap().as_slice());
+    let ex = exchange(rc, cx, c, req, id, true).await;
+    if let Some(f) = ex.notifies.first() {
+        cx.viol(c, format!("C17:unexpected-frame:{p}"), format!("unexpected notify frame while waiting for the reply: {}", hex_trunc(f, 64)));
+    }
+    if let (None, Some(f)) = (&ex.reply, ex.strays.first()) {
+        let sh = oracle::valid_parse(f, true).map(|x| x.0);
+        cx.viol(c, format!("C17:unknown-route-reply:{p}:wrong-id"), format!("request id {id} was answered by a frame with id {:?} ec {:?} ({} bytes)", sh.map(|h| h.id), sh.map(|h| h.ec), f.len()));
+        return follow_up(rc, cx, c, "misaddressed-response").await.is_some();
+    }
+    let Some(reply) = ex.reply else {
+        match ex.closed {
+            Some(w) => cx.viol(c, format!("C17:unknown-route-reply:{p}:connection-closed"), format!("no reply to request id {id} for an unknown {}-byte route; the connection ended: {w}", c.q)),
+            None => cx.progress_viol(c, format!("C17:unknown-route-reply:{p}:no-reply"), format!("no reply to request id {id} for an unknown {}-byte route within {WINDOW:?}", c.q)),
+        }
+        return false;
+    };
+    let (h, ql, _) = oracle::valid_parse(&reply, true).unwrap();
+    let body = trunc(&String::from_utf8_lossy(&reply[(48 + ql).min(reply.len())..]), 140);
+    if h.ec == 9 {
+        if reply.len() <= limit {
+            cx.acc.count("unknown_long_route_error_replies_replaced_by_fitting_ec9", 1);
+        } else {
+            cx.viol(
+                c,
+                format!("C17:replacement-error-over-limit:{p}"),
+                format!("the oversized MethodNotFound reply for an unknown {}-byte route was replaced by an ec 9 reply, but the replacement is itself {} bytes ({} over the limit): 48 header + {ql} query + {} body; body: {body}", c.q, reply.len(), reply.len() - limit, h.body_length),
+            );
+        }
+    } else if h.ec == 6 {
+        if reply.len() <= limit {
+            if &reply[48..48 + ql] == route.as_bytes() {
+                cx.acc.count("unknown_long_route_error_replies_delivered_within_limit", 1);
+            } else {
+                cx.viol(c, format!("C17:within-limit-message-altered:{p}"), format!("the MethodNotFound reply does not echo the {}-byte query (it carries {ql} query bytes)", c.q));
+            }
+        } else {
+            cx.viol(c, format!("C17:oversized-response-not-replaced:{p}:sent-as-is"), format!("the {}-byte MethodNotFound reply for an unknown {}-byte route was sent unchanged: {body}", reply.len(), c.q));
+        }
+    } else {
+        cx.viol(c, format!("C17:unknown-route-reply:{p}:ec={}", h.ec), format!("reply to an unknown {}-byte route is {} bytes with ec {}: {body}", c.q, reply.len(), h.ec));
+    }
+    let alive = follow_up(rc, cx, c, "unknown-long-route").await.is_some();
+    // the refusal report carries the library's own size of the reply it refused: not predictable here
+    let n = std::mem::take(&mut *srv.reports.lock().unwrap()).len();
+    cx.acc.count("on_error_outbound_too_large_reports", n as u64);
+    alive
+}
+
 /// Returns true when the notify did not reach the peer.
 fn judge_notify(cx: &mut Ctx<'_>, c: &CaseSpec, nots: &[Vec<u8>], method: &str, bf: u16, body: &[u8]) -> bool {
     let p = cx.g.path.name();
@@ -801,7 +963,7 @@ async fn run_server_group(g: &Group, hb: &Heartbeat) -> Acc {
             match Rc::connect(srv.addr).await {
                 Ok(mut r) => {
                     // make sure the peer is registered before the first broadcast
-                    let warm = CaseSpec { size: 0, variant: 0, boundary: false };
+                    let warm = CaseSpec { size: 0, variant: 0, boundary: false, q: 0, unknown: false };
                     if follow_up(&mut r, &mut cx, &warm, "connect").await.is_none() {
                         cx.acc.inconcl.push("fresh connection does not answer a ping".into());
                         break;
@@ -817,7 +979,7 @@ async fn run_server_group(g: &Group, hb: &Heartbeat) -> Acc {
         tokc = tokc.wrapping_mul(6364136223846793005).wrapping_add(1442695040888963407);
         let tok = tokc >> 12;
         cx.acc.evals += 1;
-        cx.acc.distinct.push((g.path, g.limit, c.size, c.variant));
+        cx.acc.distinct.push((g.path, g.limit, c.size, c.variant, c.q, c.unknown));
         let before = cx.acc.viols.len();
         let alive = server_case(rc.as_mut().unwrap(), &srv, &mut cx, c, tok).await;
         if cx.over(c) {
@@ -917,7 +1079,7 @@ async fn run_client_group(g: &Group, hb: &Heartbeat) -> Acc {
         tokc = tokc.wrapping_mul(6364136223846793005).wrapping_add(1442695040888963407);
         let tok = tokc >> 12;
         cx.acc.evals += 1;
-        cx.acc.distinct.push((g.path, g.limit, c.size, c.variant));
+        cx.acc.distinct.push((g.path, g.limit, c.size, c.variant, c.q, c.unknown));
         let over = cx.over(c);
         if over {
             cx.acc.count("cases_over_limit", 1);
@@ -1067,7 +1229,13 @@ pub fn run(args: &Args) -> Report {
                     path: *PATHS.iter().find(|x| Some(x.name()) == v["path"].as_str())?,
                     limit: v["limit"].as_u64().map(|x| x as usize),
                     defaults: v["library_defaults"].as_bool().unwrap_or(false),
-                    cases: vec![CaseSpec { size: v["size"].as_u64()? as usize, variant: v["variant"].as_u64()? as u32, boundary: true }],
+                    cases: vec![CaseSpec {
+                        size: v["size"].as_u64()? as usize,
+                        variant: v["variant"].as_u64()? as u32,
+                        boundary: true,
+                        q: v["query_len"].as_u64().unwrap_or(0) as usize,
+                        unknown: v["unknown_route"].as_bool().unwrap_or(false),
+                    }],
                     seed: v["group_seed"].as_str().and_then(|x| x.parse().ok()).unwrap_or(1),
                 })
             });
